@@ -5,7 +5,7 @@
    heap (reads and writes go through the reference the object holds) it is reversible_call; instantiated with a
    plain list it is reversible_rule1 (under the guard of that definition). *)
 From Coq Require Import ZArith List Bool Lia.
-From CPL Require Import Model.Base Model.Numbering Model.Rules Model.Engine Model.Evolve1D Model.Reversible gen.GenFuns.
+From CPL Require Import Model.Base Model.Numbering Model.Rules Model.Engine Model.Evolve1D Model.Reversible gen.GenFuns_C13.
 Import ListNotations.
 Local Open Scope Z_scope.
 
